@@ -1,0 +1,10 @@
+//go:build verif
+// +build verif
+
+package zlib
+
+import "github.com/intel/fastgo/compress/flate"
+
+// VerifCompressor returns the flate.Writer behind z (nil until the header has been written).
+// Verification hook, build tag `verif` only.
+func (z *Writer) VerifCompressor() *flate.Writer { return z.compressor }
